@@ -260,6 +260,9 @@ func c14Run(sc c14Scenario) c14Result {
 	for _, fr := range sc.Frames {
 		s := states[fr.C-1]
 		seq := s.cn.ISN + 1 + uint32(s.sent)
+		if s.finSent {
+			seq++ // the FIN took a sequence number
+		}
 		ack := s.srvSeq + 1
 		var frame []byte
 		wait := 30 * time.Millisecond
@@ -284,7 +287,10 @@ func c14Run(sc c14Scenario) c14Result {
 			}
 			frame = c14Build(s.cn, seq, ack, fl, s.cn.bytes(s.sent, fr.N))
 			s.sent += fr.N
+			s.finSent = true
 			wait = 150 * time.Millisecond
+		case "rst":
+			frame = c14Build(s.cn, seq, ack, 0x14, nil)
 		}
 		c.VerifInject(frame)
 		res.Lines = append(res.Lines, c14Line{K: fr.K, C: fr.C, N: fr.N, Emitted: drain(wait)})
